@@ -5,6 +5,16 @@ import os
 VERIF = os.path.dirname(os.path.dirname(os.path.abspath(__file__)))
 
 CLAIMED = {
+    'C03': dict(
+        text='Coq theorem compute_spec (any mask, any batch limit >= 1, any map function): compute() terminates, the call log equals the pending '
+             'list (each pending position exactly once, never a completed one), batches are non-empty, within the limit and concatenate to the '
+             'pending list, final status is 1 everywhere, pending results are f(row), others untouched. The cursor arithmetic is regenerated from '
+             'process.py by the translator (which also checks the statement order of the while loop); every run of the real Process.compute() '
+             '(eager/lazy, same/separate target file, 1..4 cores with batches big enough for joblib to fork) is compared with the model in coqc.',
+        design='5/C03',
+        note='Trusted: Coq kernel, translator, joblib order preservation (call order inside a parallel batch compared as a sorted list), the harness '
+             'Process subclass. Partial: interleavings inside joblib are not modelled.',
+        technique='Coq proof (induction over the batch loop, list lemmas) + translator-tied kernel + in-Coq correspondence evaluation'),
     'C14': dict(
         text='Coq theorems (unbounded in ranks, pending-list length, batch limit, processor names) about rank ranges, batch windows and '
              'socket masters; the integer kernels are regenerated from process.py by a fail-closed ast translator on every run, '
